@@ -11,26 +11,105 @@ var w1Components = sim.Components{
 	Stub: []string{"redis (datastore.Store seam, in-memory)", "RocksDB (simulated disk)", "event DB (disabled)", "network/HTTP"},
 }
 
-// baseExec runs a base-workload plan with the given observers.
-func baseExec(prop string, mk func(w *World) []Observer) func(env *sim.Env, p *sim.Plan) *sim.Result {
-	return func(env *sim.Env, p *sim.Plan) *sim.Result {
-		tr := sim.NewTrace()
-		tr.Keep = env.KeepLog
-		w := NewWorld(p.Seed, CfgFromPlan(p), tr)
-		defer w.Close()
-		for _, o := range mk(w) {
-			w.AddObserver(o)
+// W1Components describes what runs real / simulated / stubbed in this world.
+var W1Components = w1Components
+
+// Scenario is a property check over the ledger world: base workload weights,
+// optional property-specific plan generation, and a setup hook that installs
+// observers (oracles) and extra step handlers (Runner.Ops).
+type Scenario struct {
+	Prop    string
+	Weights map[string]int // weights of the base ops (send, call, pour, data, replay, block, clock)
+	Lo, Hi  int            // number of base steps
+	// GenExtra may add swarm knobs to p.Cfg and insert property-specific steps
+	// (it receives the plan already holding the base steps and may reorder).
+	GenExtra func(r *sim.RNG, p *sim.Plan, tier string)
+	// Early runs before genesis (hooks that must see genesis inserts).
+	Early func(w *World) []Observer
+	// Setup runs after genesis: register Runner.Ops handlers, return observers.
+	Setup func(w *World, r *Runner) []Observer
+	// Finish runs after the last step (final checks over the recorded history).
+	Finish func(w *World, r *Runner)
+	// Mixed: no GenExtra of its own; run over the base workload or one of the
+	// registered workloads, chosen per seed (core oracles).
+	Mixed bool
+}
+
+// Workload is a named property-specific workload (extra plan steps + step
+// handlers) registered by a sub-package; the core oracles (C01-C05, C07, C08)
+// run over every registered workload, chosen per seed.
+type Workload struct {
+	Name     string
+	GenExtra func(r *sim.RNG, p *sim.Plan, tier string)
+	Setup    func(w *World, r *Runner) // registers Runner.Ops handlers; no observers
+}
+
+var workloads = map[string]*Workload{}
+
+func RegisterWorkload(wl *Workload) { workloads[wl.Name] = wl }
+
+func workloadNames() []string {
+	ns := SortedKeys(workloads)
+	return append([]string{"base"}, ns...)
+}
+
+func (s Scenario) Gen(seed uint64, tier string) *sim.Plan {
+	p := baseGen(s.Weights, s.Lo, s.Hi)(seed, tier)
+	if s.GenExtra != nil {
+		s.GenExtra(sim.NewRNG(seed).Child("extra"), p, tier)
+	} else if s.Mixed {
+		// core oracle: pick one of the registered workloads by seed
+		ns := workloadNames()
+		k := sim.NewRNG(seed).Child("workload").Intn(len(ns))
+		p.Cfg["workload"] = int64(k)
+		if k > 0 {
+			workloads[ns[k]].GenExtra(sim.NewRNG(seed).Child("extra"), p, tier)
 		}
-		r := NewRunner(w)
-		for _, st := range p.Steps {
-			r.Step(st)
-			if tr.Failed() && !allKnown(tr) {
-				break
+	}
+	return p
+}
+
+func (s Scenario) Exec(env *sim.Env, p *sim.Plan) *sim.Result {
+	tr := sim.NewTrace()
+	tr.Keep = env.KeepLog
+	w := NewWorldWith(p.Seed, CfgFromPlan(p), tr, func(w *World) {
+		if s.Early != nil {
+			for _, o := range s.Early(w) {
+				w.AddObserver(o)
 			}
 		}
-		r.EndBlock(true)
-		return tr.Result(p.Seed)
+	})
+	defer w.Close()
+	r := NewRunner(w)
+	r.Plan = p
+	if s.Mixed {
+		ns := workloadNames()
+		if k := int(p.CfgInt("workload", 0)); k > 0 && k < len(ns) {
+			workloads[ns[k]].Setup(w, r)
+			tr.Probe("workload:" + ns[k])
+		}
 	}
+	if s.Setup != nil {
+		for _, o := range s.Setup(w, r) {
+			w.AddObserver(o)
+		}
+	}
+	for _, st := range p.Steps {
+		r.Step(st)
+		if tr.Failed() && !allKnown(tr) {
+			break
+		}
+	}
+	r.EndBlock(true)
+	if s.Finish != nil && (!tr.Failed() || allKnown(tr)) {
+		s.Finish(w, r)
+	}
+	return tr.Result(p.Seed)
+}
+
+// baseExec runs a base-workload plan with the given observers.
+func baseExec(prop string, mk func(w *World) []Observer) func(env *sim.Env, p *sim.Plan) *sim.Result {
+	return Scenario{Prop: prop, Early: mk, Mixed: true}.Exec
 }
 
 func allKnown(tr *sim.Trace) bool {
@@ -63,12 +142,55 @@ func baseGen(weights map[string]int, lo, hi int) func(seed uint64, tier string) 
 	}
 }
 
+func init() {
+	sim.Register(&sim.Check{
+		ID: "C02", Title: "A failing contract call only pays its fee and consumes its nonce", World: "ledger",
+		Gen:  Scenario{Weights: map[string]int{"send": 3, "call": 20, "pour": 3, "data": 0, "replay": 1, "block": 3, "clock": 1}, Lo: 20, Hi: 120, Mixed: true}.Gen,
+		Exec: baseExec("C02", func(w *World) []Observer { return []Observer{OracleC02{}} }),
+		Quick: sim.Budget{Runs: 320, WallS: 90}, Thorough: sim.Budget{Runs: 20000, WallS: 1500},
+		LevelText: "seeded search over contract calls that fail (every registered function, malformed and boundary payloads, wrong callers, insufficient funds); for every chargeable-failed transaction the structural MPT diff must be exactly {sender -fee, nonce+1; miner-contract wallet +fee} and the event list one error event (+ the user events of fee/nonce)",
+		LevelNote: "probe failed_after_state_write counts failures that happened after at least one contract-level insert/delete (the interesting case); contract-specific late-failure workloads (storage, staking, bridge) attach this oracle too",
+		Technique: "deterministic simulation: failing-call workload, allowed-diff oracle on the real trie",
+		DesignRef: "6/C02, A.2", Regime: "single-threaded event loop", Components: w1Components,
+	})
+	sim.Register(&sim.Check{
+		ID: "C04", Title: "Transactions debit only what their sender authorised", World: "ledger",
+		Gen:  Scenario{Weights: map[string]int{"send": 8, "call": 16, "pour": 3, "data": 1, "replay": 1, "block": 3, "clock": 1}, Lo: 20, Hi: 120, Mixed: true}.Gen,
+		Exec: baseExec("C04", func(w *World) []Observer { return []Observer{NewOracleC04()} }),
+		Quick: sim.Budget{Runs: 320, WallS: 90}, Thorough: sim.Budget{Runs: 20000, WallS: 1500},
+		LevelText: "seeded search over all transaction types and contract functions; on the MPT diff of each applied transaction the sender loses at most value+fee and any other debited account must be the called contract's wallet or covered by an authorisation the oracle verified itself",
+		LevelNote: "StateContext.Validate() runs before the contract on the pinned tree, so the oracle does not rely on it; signed-transfer and free-storage authorisations are registered by the multisig / storage workloads after the oracle re-verifies the signatures",
+		Technique: "deterministic simulation: seeded workload, debit-authorisation oracle on the real trie",
+		DesignRef: "6/C04", Regime: "single-threaded event loop", Components: w1Components,
+	})
+	sim.Register(&sim.Check{
+		ID: "C07", Title: "The state cache never disagrees with the state trie", World: "ledger",
+		Gen:  Scenario{Weights: map[string]int{"send": 4, "call": 16, "pour": 4, "data": 0, "replay": 1, "block": 5, "clock": 1}, Lo: 20, Hi: 120, Mixed: true}.Gen,
+		Exec: baseExec("C07", func(w *World) []Observer { return []Observer{NewOracleC07(w)} }),
+		Quick: sim.Budget{Runs: 240, WallS: 90}, Thorough: sim.Budget{Runs: 12000, WallS: 1500},
+		LevelText: "through hook H1 every cache-served GetTrieNode is compared with an uncached read (second trie object, empty cache, same node DB and root); at every transaction end (success, chargeable failure, rejection) every touched key is read through the cache stack and compared with the trie, then the returned value is scribbled over in place and read again (aliasing)",
+		LevelNote: "covers every type stored through StateContext because the check is by interface; trie-node entries of the same cache are content-addressed and not under test; the cache implementation itself lives in github.com/0chain/common (outside /repo), the Clone/CopyFrom methods of the entity types are in /repo",
+		Technique: "deterministic simulation: failing/rejected transactions and cache warmth as faults, cached-vs-uncached read oracle via hook H1",
+		DesignRef: "6/C07", Regime: "single-threaded event loop", Components: w1Components,
+	})
+	sim.Register(&sim.Check{
+		ID: "C08", Title: "State entities serialize losslessly and canonically", World: "ledger",
+		Gen:  Scenario{Weights: map[string]int{"send": 2, "call": 18, "pour": 3, "data": 0, "replay": 0, "block": 3, "clock": 1}, Lo: 20, Hi: 120, Mixed: true}.Gen,
+		Exec: baseExec("C08", func(w *World) []Observer { return []Observer{NewOracleC08(w)} }),
+		Quick: sim.Budget{Runs: 240, WallS: 90}, Thorough: sim.Budget{Runs: 12000, WallS: 1500},
+		LevelText: "at every InsertTrieNode (hook H1, including genesis) the value is encoded, decoded into a fresh value of the same type and re-encoded: bytes identical, two encodings of the same value identical",
+		LevelNote: "input-class property hosted in the simulation: field-value coverage is whatever the histories and swarm extremes produce (probes type:<T> list the entity types reached)",
+		Technique: "deterministic simulation: round-trip oracle on every stored value via hook H1",
+		DesignRef: "6/C08", Regime: "single-threaded event loop", Components: w1Components,
+	})
+}
+
 var coreWeights = map[string]int{"send": 10, "call": 10, "pour": 3, "data": 1, "replay": 2, "block": 4, "clock": 1}
 
 func init() {
 	sim.Register(&sim.Check{
 		ID: "C01", Title: "Total token supply is conserved by every transaction", World: "ledger",
-		Gen:  baseGen(coreWeights, 20, 120),
+		Gen:  Scenario{Weights: coreWeights, Lo: 20, Hi: 120, Mixed: true}.Gen,
 		Exec: baseExec("C01", func(w *World) []Observer { return []Observer{OracleC01{}} }),
 		Quick: sim.Budget{Runs: 320, WallS: 90}, Thorough: sim.Budget{Runs: 20000, WallS: 1500},
 		LevelText: "seeded search over transaction histories (every transaction type, every registered contract function with well-formed/boundary/malformed payloads, boundary values and fees, replays) on a real chain with all contracts; " +
@@ -80,7 +202,7 @@ func init() {
 	})
 	sim.Register(&sim.Check{
 		ID: "C03", Title: "Each account's transactions apply once, in strict nonce order", World: "ledger",
-		Gen:  baseGen(map[string]int{"send": 12, "call": 6, "pour": 2, "data": 1, "replay": 6, "block": 4, "clock": 0}, 20, 120),
+		Gen:  Scenario{Weights: map[string]int{"send": 12, "call": 6, "pour": 2, "data": 1, "replay": 6, "block": 4, "clock": 0}, Lo: 20, Hi: 120, Mixed: true}.Gen,
 		Exec: baseExec("C03", func(w *World) []Observer { return []Observer{NewOracleC03()} }),
 		Quick: sim.Budget{Runs: 320, WallS: 90}, Thorough: sim.Budget{Runs: 20000, WallS: 1500},
 		LevelText: "seeded search over submission histories with nonces drawn from {expected, ±1, 0, negative, far future}, duplicates and byte-identical replays of applied transactions; per-account reference counter compared with the nonce stored in the real trie",
@@ -90,7 +212,7 @@ func init() {
 	})
 	sim.Register(&sim.Check{
 		ID: "C05", Title: "Balances never overdraw or wrap", World: "ledger",
-		Gen:  baseGen(map[string]int{"send": 14, "call": 8, "pour": 3, "data": 1, "replay": 1, "block": 3, "clock": 0}, 20, 120),
+		Gen:  Scenario{Weights: map[string]int{"send": 14, "call": 8, "pour": 3, "data": 1, "replay": 1, "block": 3, "clock": 0}, Lo: 20, Hi: 120, Mixed: true}.Gen,
 		Exec: baseExec("C05", func(w *World) []Observer { return []Observer{OracleC05{}} }),
 		Quick: sim.Budget{Runs: 320, WallS: 90}, Thorough: sim.Budget{Runs: 20000, WallS: 1500},
 		LevelText: "seeded search with boundary amounts (0, 1, balance, balance+1, supply, supply+1, 2^63-1, 2^63, 2^64-1) for values and fees; reference arithmetic in math/big; rejected transactions must leave the block state root bit-identical",
